@@ -817,6 +817,8 @@ UNITS = [
     ("task_timeout", ["Timeout.lean"], lambda src: __import__("timeout2lean").generate(src)),
     ("PriorityLock / PriorityTask lock layer", ["Lock.lean"], lambda src: __import__("lock2lean").generate(src)),
     ("CoroStart, _Continuation, coro_eager, cancelling", ["CoroStart.lean"], lambda src: __import__("corostart2lean").generate(src)),
+    ("monitor.py: Monitor, BoundMonitor, GeneratorObject(Iterator)", ["Monitor.lean"],
+     lambda src: __import__("monitor2lean").generate(src)),
 ]
 
 
